@@ -149,7 +149,7 @@ def correspondence(ctx):
     return st, dis
 
 def search(ctx, deep):
-    n = (30 if ctx.tier == "quick" else 120) * (3 if deep else 1)
+    n = (30 if ctx.tier == "quick" else 400) * (3 if deep else 1)
     H = 2
     work = [(ctx.seed * 1009 + j, H, n) for j in range(ctx.jobs)]
     nvar = 0
